@@ -136,6 +136,7 @@ void IndexContainer4<ElementType,SourceObject>::fill(std::set<IndexCombination4>
 
     // remove existing elements
     ElementsMap.clear();
+    NonTrivialElements.clear();
 
     std::set<IndexCombination4> II;
     if(InitialIndices.size()==0)           // If there are no indices provided,
